@@ -245,7 +245,7 @@ func (fr *Frame) applyContract(c *Contract, f *ssa.Function, sig *types.Signatur
 			vc.specError(fr.fn, cl, err)
 			continue
 		}
-		name := fmt.Sprintf("%s/pre@call/%s#%d.%d", fnName(fr.fn), short, ord, i+1)
+		name := fmt.Sprintf("%s/pre@call/%s#%d:%s", fnName(fr.fn), short, ord, clauseId(cl, i))
 		if fr.path != "" {
 			name += "@" + fr.path
 		}
@@ -388,7 +388,7 @@ func (fr *Frame) siteClauses(short string, ord int, when string, args []Val, f *
 			vc.assume(fr.curReach, t, "site assume")
 			continue
 		}
-		name := fmt.Sprintf("%s/site/%s#%d.%d", fnName(fr.fn), short, ord, i+1)
+		name := fmt.Sprintf("%s/site/%s#%d:%s", fnName(fr.fn), short, ord, clauseId(&sc.Clause, i))
 		if fr.path != "" {
 			name += "@" + fr.path
 		}
